@@ -487,7 +487,8 @@ Section Refine.
       destruct (QueryNS st ns) as [st' r]. cbn [fst snd] in *.
       split; [rewrite Q1; reflexivity|]. split; [exact Q2|]. split; [exact HN|]. split; [exact Q3|].
       destruct Q4 as [_ [_ [C _]]]. rewrite <- C. exact HE.
-    - cbn [fst snd]. split; [rewrite HE; reflexivity|]. split; [exact HI|]. split; [exact HN|]. split; [exact HS|exact HE].
+    - cbn [fst snd]. split; [rewrite HE; reflexivity|].
+      destruct HI as [HR [HM HT]]. split; [repeat split; assumption|]. split; [exact HN|]. split; [exact HS|exact HE].
   Qed.
 
   Lemma run_sim : forall fx ops (st : state obs) a,
